@@ -409,7 +409,7 @@ func (h *harness) runnerHistoryCase(hist runnerHistory, family string) bool {
 	res := h.res
 	d := memory.New()
 	if err := hist.Init.write(d); err != nil {
-		res.Note("history init: %v", err)
+		res.Fatalf("history init: %v", err)
 		return true
 	}
 	if a := h.bt.ask(hist.Init.modelLine()); a != "ok" {
